@@ -1,0 +1,88 @@
+//go:build verif
+
+package dir
+
+// Contracts for govc (contract-based deductive verification; see /verif/DESIGN.md, property C18).
+// This file holds only comments and is compiled only with -tags verif.
+//
+// The file system is the package-level ghost state of /verif/libspec/os_fs.spec (fsExists, fsIsLink, fsLink,
+// fsIsDir, fsSrc, fsComplete, fsOK; paths are clean spellings, pchild/panc/pjoin/pdir/pbase the lexical path
+// functions).
+
+// fsCI: the crash invariant. The target is absent, or it is a symbolic link to a version directory next to it
+// (a child of the same parent b, not named "<target>.new") that exists, is a real directory and holds exactly the file set of one Write.
+//@ pure func fsCI(ex [string]bool, isl [string]bool, lk [string]string, isd [string]bool, comp [string]bool, t string, b string) bool = !ex[t] || (isl[t] && !isd[t] && pchild(lk[t], b) && !isDotNew(t, lk[t]) && ex[lk[t]] && isd[lk[t]] && !isl[lk[t]] && comp[lk[t]])
+
+// fsCRx: what a crash-reachable state satisfies besides fsCI: nothing but directories on the way to the parent
+// directory, and a left-over "<target>.new" can only be a symbolic link.
+//@ pure func fsCRx(ex [string]bool, isl [string]bool, isd [string]bool, t string, b string) bool = (forall q string :: (panc(q, b) && ex[q]) ==> isd[q]) && (forall s string :: (isDotNew(t, s) && ex[s]) ==> (isl[s] && !isd[s]))
+
+//@ type Dir
+//@   invariant [layout] pclean(self.target) && pclean(self.base) && pchild(self.target, self.base) && self.targetDir == pbase(self.target) && psimple(self.targetDir)
+//@   invariant [log] self.log != nil
+//@   invariant [prev] self.prev != nil ==> (pchild(*self.prev, self.base) && pclean(*self.prev) && fsExists[self.target] && fsIsLink[self.target] && fsLink[self.target] == *self.prev)
+
+//@ func New
+//@   tags C18 C07
+//@   requires opts.Log != nil && pclean(opts.Target) && psimple(pbase(opts.Target))
+//@   modifies nothing
+//@   ensures fresh(result) && inv(result) && result.prev == nil && result.target == opts.Target
+
+//@ func (*Dir).Write
+//@   tags C18 C07
+//@   ghost visited [string]bool
+//@   ghost tnew string
+//@   requires d != nil && inv(d)
+//@   requires forall k string :: haskey(files, k) ==> psimple(k)
+//@   requires fsCI(fsExists, fsIsLink, fsLink, fsIsDir, fsComplete, d.target, d.base)
+//@   modifies fsExists, fsIsLink, fsLink, fsIsDir, fsSrc, fsComplete, d.prev
+//@   ensures invonly(d, "layout", "log")
+//@   ensures [C18.post.inv] result == nil ==> inv(d)
+//@   ensures [C18.post.ci] fsCI(fsExists, fsIsLink, fsLink, fsIsDir, fsComplete, d.target, d.base)
+//@   ensures [C18.post.target] result == nil ==> (d.prev != nil && fsExists[d.target] && fsIsLink[d.target] && fsLink[d.target] == *d.prev && fsIsDir[*d.prev] && fsComplete[*d.prev])
+//@   ensures [C18.post.oldgone] (result == nil && old(d.prev) != nil) ==> !fsExists[old(*d.prev)]
+//@   ensures [C18.recover] (fsOK && old(d.prev) == nil && old(fsCRx(fsExists, fsIsLink, fsIsDir, d.target, d.base))) ==> result == nil
+//@   replay template dircrash
+//@   replay val nfiles = len(files)
+//@   replay val hadprev = d.prev != nil
+//
+// The version name: "<UnixNano>-<targetDir>" is a single path component when targetDir is one (fact about
+// fmt.Sprintf with this format), and it is fresh: no entry of that name exists, and it is neither the target
+// nor its ".new" companion (assumption about the clock, DESIGN.md C18).
+//@   at call Sprintf#0 ghost visited = noKeys()
+//@   at call Sprintf#0 assume psimple(d.targetDir) ==> psimple(res0)
+//@   at call Join#0 assume !fsExists[res0] && res0 != d.target && !isDotNew(d.target, res0)
+//
+// Every crash point: after each file-system call the crash invariant holds, and crash-reachability is closed.
+//@   at call MkdirAll assert [C18.crash.mkdir] fsCI(fsExists, fsIsLink, fsLink, fsIsDir, fsComplete, d.target, d.base)
+//@   at call WriteFile assert [C18.crash.writefile] fsCI(fsExists, fsIsLink, fsLink, fsIsDir, fsComplete, d.target, d.base)
+//@   at call Symlink assert [C18.crash.symlink] fsCI(fsExists, fsIsLink, fsLink, fsIsDir, fsComplete, d.target, d.base)
+//@   at call Rename assert [C18.crash.rename] fsCI(fsExists, fsIsLink, fsLink, fsIsDir, fsComplete, d.target, d.base)
+//@   at call RemoveAll assert [C18.crash.removeall] fsCI(fsExists, fsIsLink, fsLink, fsIsDir, fsComplete, d.target, d.base)
+//@   at call MkdirAll assert [C18.cr.mkdir] old(fsCRx(fsExists, fsIsLink, fsIsDir, d.target, d.base)) ==> fsCRx(fsExists, fsIsLink, fsIsDir, d.target, d.base)
+//@   at call WriteFile assert [C18.cr.writefile] old(fsCRx(fsExists, fsIsLink, fsIsDir, d.target, d.base)) ==> fsCRx(fsExists, fsIsLink, fsIsDir, d.target, d.base)
+//@   at call Symlink assert [C18.cr.symlink] old(fsCRx(fsExists, fsIsLink, fsIsDir, d.target, d.base)) ==> fsCRx(fsExists, fsIsLink, fsIsDir, d.target, d.base)
+//@   at call Rename assert [C18.cr.rename] old(fsCRx(fsExists, fsIsLink, fsIsDir, d.target, d.base)) ==> fsCRx(fsExists, fsIsLink, fsIsDir, d.target, d.base)
+//@   at call RemoveAll assert [C18.cr.removeall] old(fsCRx(fsExists, fsIsLink, fsIsDir, d.target, d.base)) ==> fsCRx(fsExists, fsIsLink, fsIsDir, d.target, d.base)
+//
+// The loop over the file map. visited = keys handed out by range so far.
+//@   at next#0 ghost visited = res0 ? update(visited, res1, true) : visited
+//@   loop 0 invariant fsCI(fsExists, fsIsLink, fsLink, fsIsDir, fsComplete, d.target, d.base)
+//@   loop 0 invariant old(fsCRx(fsExists, fsIsLink, fsIsDir, d.target, d.base)) ==> fsCRx(fsExists, fsIsLink, fsIsDir, d.target, d.base)
+//@   loop 0 invariant fsExists[newDir] && fsIsDir[newDir] && !fsIsLink[newDir] && fsExists[d.base] && fsIsDir[d.base]
+//@   loop 0 invariant fsLink == old(fsLink) && !fsComplete[newDir]
+//@   loop 0 invariant forall q string :: (fsExists[q] && pdir(q) == newDir && q != newDir) ==> visited[pbase(q)]
+//@   loop 0 invariant forall k string :: visited[k] ==> (haskey(files, k) && fsExists[pjoin(newDir, k)] && !fsIsDir[pjoin(newDir, k)] && !fsIsLink[pjoin(newDir, k)] && fsSrc[pjoin(newDir, k)] == files[k])
+//
+// Go's range over a map visits every key before it ends (the engine models each iteration as "some key of
+// the map"; that the enumeration is complete is this listed assumption).
+//@   at next#0 assume !res0 ==> (forall k string :: haskey(files, k) ==> visited[k])
+//@   at before call Symlink#0 assert [C18.complete.all] forall k string :: haskey(files, k) ==> (fsExists[pjoin(newDir, k)] && !fsIsDir[pjoin(newDir, k)] && !fsIsLink[pjoin(newDir, k)] && fsSrc[pjoin(newDir, k)] == files[k])
+//@   at before call Symlink#0 assert [C18.complete.only] forall q string :: (fsExists[q] && pdir(q) == newDir && q != newDir) ==> haskey(files, pbase(q))
+//@   at before call Symlink#0 ghost fsComplete = update(fsComplete, newDir, true)
+//
+// The two spellings of target + ".new".
+//@   at before call Symlink#0 ghost tnew = arg1
+//@   at before call Symlink#0 assert isDotNew(d.target, tnew)
+//@   at before call Rename#0 assert len(arg0) == len(tnew) && (forall i :: arg0[i] == tnew[i])
+//@   at before call Rename#0 assert arg0 == tnew
